@@ -145,6 +145,12 @@ macro_rules! stamp_actor {
                     self.rec.snapshot()
                 }
 
+                // a value-returning call whose value is the unit type, with the return type spelled out
+                pub fn unit(&mut self, caller: u32, seq: u32) -> () {
+                    let _g = self.rec.enter();
+                    self.rec.push(format!("unit:{caller}:{seq}"));
+                }
+
                 // Optional methods. They are written here (not passed in) so that
                 // their `self` tokens share the hygiene context of the attribute;
                 // the caller only passes the `pub` token that switches them on.
@@ -432,6 +438,8 @@ macro_rules! runners {
 
             phase("fault: in-flight clients");
             let boom_slot = Slot::new();
+            let un = p.num("units", 0)? as u32;
+            let unit_slots: Vec<Arc<Slot>> = (0..un).map(|_| Slot::new()).collect();
             let add_slots: Vec<Arc<Slot>> = (0..wn).map(|_| Slot::new()).collect();
             for step in 0..2 {
                 let boom_now = (step == 0) == (order == "boom_first");
@@ -453,10 +461,23 @@ macro_rules! runners {
                         });
                     }
                     settle(&|| all_finished(&add_slots), Duration::from_secs(3));
+                    for i in 0..un {
+                        let hc = h.clone();
+                        spawn_client!($lib, unit_slots[i as usize].clone(), {
+                            let mut hc = hc;
+                            let _v: () = hc.unit(100 + i, 0) $($aw)*;
+                        });
+                    }
+                    if un > 0 {
+                        settle(&|| all_finished(&unit_slots), Duration::from_secs(2));
+                    }
                 }
             }
             for i in 0..wn {
                 calls.push((i, "add", "inflight", add_slots[i as usize].clone()));
+            }
+            for i in 0..un {
+                calls.push((100 + i, "unit", "inflight", unit_slots[i as usize].clone()));
             }
             calls.push((wn, "boom", "inflight", boom_slot.clone()));
 
@@ -544,6 +565,24 @@ macro_rules! runners {
             main_call!($lib, h.tick(0, 1)).map_err(|e| format!("tick(0,1) panicked: {e}"))?;
             let add_value = main_call!($lib, h.add(0, 2, 5)).map_err(|e| format!("add(0,2,5) panicked: {e}"))?;
             let clones: Vec<ProbeLive> = (1..hn).map(|_| h.clone()).collect();
+            // pending=k: the actor is parked in hold() and k fire-and-forget calls of a clone (dropped again) are queued
+            // before the consuming call is issued, so the stop message is not the only message in the queue
+            let pend = p.num("pending", 0)? as u32;
+            if pend > 0 {
+                if CHAN > 0 && pend as usize > CHAN {
+                    return Err(format!("pending={pend} exceeds channel capacity {CHAN}; the single client would block"));
+                }
+                phase("consume: hold");
+                main_call!($lib, h.hold()).map_err(|e| format!("hold() panicked: {e}"))?;
+                if !wait_until(|| rec.log_contains("hold"), Duration::from_secs(3)) {
+                    return Err("actor never entered hold()".to_string());
+                }
+                let mut c = h.clone();
+                for i in 0..pend {
+                    main_call!($lib, c.tick(9, i)).map_err(|e| format!("tick(9,{i}) panicked: {e}"))?;
+                }
+                drop(c);
+            }
             let count_before_fin = h.inter_get_count();
 
             phase("consume: fin(7)");
@@ -557,6 +596,11 @@ macro_rules! runners {
                     }
                 });
             }
+            if pend > 0 {
+                // let the consuming call reach its blocking point behind the queued calls, then release the actor
+                settle(&|| fin_slot.finished(), Duration::from_millis(600));
+                rec.open_gate();
+            }
             settle(&|| fin_slot.finished(), Duration::from_secs(3));
             let (fin_outcome, fin_msg) = match fin_slot.outcome() {
                 Outcome::Returned => ("returned", None),
@@ -569,6 +613,7 @@ macro_rules! runners {
 
             let mut o = Obj::new(p)
                 .n("handles", hn as i64)
+                .n("pending", pend as i64)
                 .n("add_value", add_value)
                 .n("count_before_fin", count_before_fin as i64)
                 .s("fin_outcome", fin_outcome)
